@@ -101,6 +101,11 @@ def plans(ctx, rng):
         # crosses the request on the wire): the server answers a command whose call has already failed
         for pos in range(0, 8):
             out.append(("script", [0] * pos + [(TAGS[kind], "after")], [], None, None))
+    # an interruption that is not an ordinary error (C10 has the full grid; here: the same ownership judgement on a few of them)
+    for rpos in range(0, 2):
+        out.append(("recv", [], [5] * rpos + [(TAGS["KeyboardInterrupt"],)], None, None))
+    for pos in (3, 5):
+        out.append(("script", [0] * pos + [(TAGS["GreenletTimeout"], "after")], [], None, None))
     for rpos in range(0, 3):
         out.append(("eof", [], [3] * rpos + [None], None, None))
     for kind in REPLY_FAULTS:
